@@ -1017,7 +1017,7 @@ func (ctx *Context) evaluate() {
 			if !doubleCrossCheck(ctx, v.MustReadInt(), dcState.pool, dcState.points) {
 				return
 			}
-			success, _, _, detailText := RollDoubleCross(nil, v.MustReadInt(), dcState.pool, dcState.points, getRollMode())
+			success, _, _, detailText := RollDoubleCross(ctx.RandSrc, v.MustReadInt(), dcState.pool, dcState.points, getRollMode())
 			ret := NewIntVal(success)
 			details[len(details)-1].Ret = ret
 			details[len(details)-1].Text = detailText
